@@ -12,21 +12,137 @@ use crate::rng::Rng;
 
 pub struct C17;
 
+/// Two or three loop connections over disjoint ranges of one network.
+fn several(seed: u64, idx: u64) -> Out {
+    let mut rng = Rng::stream(seed, "several", idx);
+    let mut out = Out::new(String::new());
+    let acc = ACCS[(idx % 5) as usize];
+    let rep = ((idx / 5) % 3) as usize;
+    let acts = [Act::Tanh, Act::Sigmoid, Act::Linear, Act::Leaky, Act::Relu];
+    let depth = rng.range(4, 8);
+    let (kind, end_dense) = match rep {
+        0 => (0, rng.bool()),
+        1 => (1, false),
+        _ => (1, true),
+    };
+    let mut cfg = chain(&mut rng, kind, depth, &acts, true, end_dense);
+    let shapes = cfg.shapes().unwrap();
+    let n_eq = if end_dense { cfg.layers.len() - 1 } else { cfg.layers.len() };
+    // walk the equal-shape part from the front and cut it into disjoint loopable ranges
+    let want = rng.range(2, 3);
+    let mut loops: Vec<(usize, usize, usize, bool)> = Vec::new();
+    let mut a = rng.range(0, 1);
+    while a < n_eq && loops.len() < want {
+        let cands: Vec<usize> = (a..n_eq.min(a + 3)).filter(|b| shapes[a].0 == shapes[*b].1).collect();
+        if cands.is_empty() {
+            a += 1;
+            continue;
+        }
+        let b = *rng.pick(&cands);
+        loops.push((b, a, rng.range(1, 3), rng.chance(0.3)));
+        a = b + 1 + rng.range(0, 1);
+    }
+    if loops.len() < 2 {
+        out.nontrivial = false;
+        out.count("chains_without_two_disjoint_ranges", 1);
+        out.key = format!("fewer than two ranges in {}", cfg.describe());
+        return out;
+    }
+    cfg.loops = loops.clone();
+    cfg.loopacc = acc;
+    out.key = cfg.describe();
+    out.cover("several_grid", format!("{} {} loops {}", acc.name(), loops.len(), ["dense", "spatial", "spatial-flattened"][rep]));
+    out.count("networks_with_several_loop_connections", 1);
+    let params = gen_params(&cfg, &mut rng, -1.0, 1.0).unwrap();
+    let x = random_input(&mut rng, cfg.input);
+    let net = match build(&cfg, Some(&params)) {
+        Ok(n) => n,
+        Err(m) => {
+            out.viol("loop:several:create-panic", format!("building {} panicked: {}", cfg.describe(), short(&m, 200)), case_json(&cfg, &params, &x));
+            return out;
+        }
+    };
+    let r: RNet<E> = RNet::plain(&cfg, &params);
+    let want = r.forward(&Val::from_f32(cfg.input, &x));
+    // products of several accumulated ranges can leave the single-precision range: nothing is
+    // claimed about values beyond it
+    if want.outs.iter().any(|o| o.d.iter().any(|e| !(e.v.abs() + 8.0 * e.e < 1e30))) {
+        out.nontrivial = false;
+        out.count("networks_leaving_the_single_precision_range_not_judged", 1);
+        return out;
+    }
+    let pred = guard(|| net.predict(&tensor_of(cfg.input, &x)));
+    match &pred {
+        Err(m) => out.viol("loop:several:forward-panic", format!("predict of {} panicked: {}", cfg.describe(), short(m, 200)), case_json(&cfg, &params, &x)),
+        Ok(p) => {
+            out.count("loop_predictions_compared", 1);
+            let w = want.output();
+            if shape_dims(&p.shape) != sh_dims(w.sh) || !shape_consistent(p) {
+                out.viol("loop:several:shape", format!("{}: output shape {:?}, expected {}", cfg.describe(), shape_dims(&p.shape), w.sh.name()), case_json(&cfg, &params, &x));
+            } else if let Some((i, got, exp, tol)) = cmp_e(&flat(p), &w.d) {
+                out.viol(
+                    &format!("loop:several:value:{}", acc.name()),
+                    format!("{}: output[{}] = {:e}, accumulated repeated sub-networks give {:e} (bound {:e})", cfg.describe(), i, got, exp, tol),
+                    case_json(&cfg, &params, &x),
+                );
+            }
+        }
+    }
+    if acc == Acc::Overwrite && loops.iter().all(|l| !l.3) {
+        if let Ok(p) = &pred {
+            let mut layers = Vec::new();
+            let mut ps = Vec::new();
+            let mut i = 0;
+            while i < cfg.layers.len() {
+                if let Some((b, a, iters, _)) = loops.iter().find(|l| l.1 == i) {
+                    for _ in 0..=*iters {
+                        for j in *a..=*b {
+                            layers.push(cfg.layers[j].clone());
+                            ps.push(params[j].clone());
+                        }
+                    }
+                    i = *b + 1;
+                } else {
+                    layers.push(cfg.layers[i].clone());
+                    ps.push(params[i].clone());
+                    i += 1;
+                }
+            }
+            let plain = NetCfg::plain(cfg.input, layers);
+            match build(&plain, Some(&ps)).and_then(|n| guard(|| n.predict(&tensor_of(plain.input, &x)))) {
+                Ok(q) => {
+                    out.count("several_overwrite_vs_unrolled_comparisons", 1);
+                    if !bits_eq(&flat(p), &flat(&q)) {
+                        out.viol("loop:several:overwrite-differs-from-unrolled", format!("{}: differs from the plain network with every looped range physically repeated", cfg.describe()), case_json(&cfg, &params, &x));
+                    }
+                }
+                Err(m) => out.inconclusive = Some(format!("unrolled twin of {} failed: {}", cfg.describe(), short(&m, 120))),
+            }
+        }
+    }
+    if idx < 3 {
+        out.sample = Some(case_json(&cfg, &params, &x));
+    }
+    out
+}
+
 impl Monitor for C17 {
     fn id(&self) -> &'static str {
         "C17"
     }
     fn gens(&self, tier: Tier) -> Vec<(&'static str, u64)> {
-        vec![("loops", tier.pick(240_000, 4_800_000))]
+        vec![("loops", tier.pick(240_000, 4_800_000)), ("several", tier.pick(60_000, 1_200_000))]
     }
     fn rule(&self) -> &'static str {
-        "case i -> accumulation (i mod 5), input skips (i/5 mod 2), iterations k = 1 + (i/10 mod 4), representation (i/40 mod 3: dense range / spatial range of 'same' convolutions, deconvolutions, 1x1 pools and deconvolution+max-pool pairs / the same followed by a dense layer so that the loop output is flattened), position of the range (start / middle / end) and its length 1..3 random, every sixth network additionally has an additive skip connection outside the looped range; predict is compared with the reference (o_0 = first output of layer b, o_t = f_{a..b}(o_{t-1} [+ input of a]), passed on = combine(o_0; o_1..o_k)) within the running f32 bound; for overwrite without input skips additionally bit-exact against a plain library network in which layers a..b are physically repeated k+1 times with the same weights. Distinct = distinct configuration descriptors."
+        "case i -> accumulation (i mod 5), input skips (i/5 mod 2), iterations k = 1 + (i/10 mod 4), representation (i/40 mod 3: dense range / spatial range of 'same' convolutions, deconvolutions, 1x1 pools and deconvolution+max-pool pairs / the same followed by a dense layer so that the loop output is flattened), position of the range (start / middle / end) and its length 1..3 random, every sixth network additionally has an additive skip connection outside the looped range; predict is compared with the reference (o_0 = first output of layer b, o_t = f_{a..b}(o_{t-1} [+ input of a]), passed on = combine(o_0; o_1..o_k)) within the running f32 bound; for overwrite without input skips additionally bit-exact against a plain library network in which layers a..b are physically repeated k+1 times with the same weights. several: chains of 4..8 layers with two or three loop connections over pairwise disjoint ranges (own iteration counts and input-skip flags, one shared accumulation), same oracle; for overwrite without input skips the network with every range physically repeated. Distinct = distinct configuration descriptors."
     }
     fn assumptions(&self) -> Vec<&'static str> {
         vec!["reference loop semantics written from the property statement (refmodel::RNet::forward)", "no skip connection targets a layer inside the loop range in the generated networks"]
     }
     fn run(&self, gen: &str, seed: u64, idx: u64, _tier: Tier) -> Out {
-        let _ = gen;
+        if gen == "several" {
+            return several(seed, idx);
+        }
         let mut rng = Rng::stream(seed, "loops", idx);
         let acc = ACCS[(idx % 5) as usize];
         let inskips = (idx / 5) % 2 == 1;
@@ -154,5 +270,7 @@ impl Monitor for C17 {
         agg.require(agg.set_size("grid") >= 110, format!("grid coverage {} of 120", agg.set_size("grid")));
         agg.require(agg.count("ranges_containing_max_pool") >= 50, "too few ranges with max-pool".into());
         agg.require(agg.count("overwrite_vs_unrolled_comparisons") >= 100, "too few unrolled comparisons".into());
+        agg.require(agg.count("networks_with_several_loop_connections") >= 1000, "too few networks with several loop connections".into());
+        agg.require(agg.count("several_overwrite_vs_unrolled_comparisons") >= 50, "too few unrolled comparisons with several loops".into());
     }
 }
